@@ -11,9 +11,12 @@ class CallBudget:
     stand-in for 'does not hang'.  Uses sys.monitoring (3.12+), falling back to sys.setprofile."""
     TOOL = 4
 
-    def __init__(self, budget=None):
+    def __init__(self, budget=None, count_resume=False):
         self.budget = budget
         self.calls = 0
+        # generator / coroutine resumptions are frame entries too (sys.setprofile reports each as a 'call'); C20 counts them,
+        # so that per-element work hidden in a generator expression is seen
+        self.count_resume = count_resume
 
     def __enter__(self):
         self.calls = 0
@@ -26,7 +29,11 @@ class CallBudget:
                 mon.free_tool_id(self.TOOL)
                 mon.use_tool_id(self.TOOL, "verif-call-budget")
             mon.register_callback(self.TOOL, mon.events.PY_START, self._cb)
-            mon.set_events(self.TOOL, mon.events.PY_START)
+            events = mon.events.PY_START
+            if self.count_resume:
+                mon.register_callback(self.TOOL, mon.events.PY_RESUME, self._cb)
+                events |= mon.events.PY_RESUME
+            mon.set_events(self.TOOL, events)
         else:
             self.mon = None
             sys.setprofile(self._prof)
@@ -49,6 +56,8 @@ class CallBudget:
         if self.mon is not None:
             self.mon.set_events(self.TOOL, 0)
             self.mon.register_callback(self.TOOL, self.mon.events.PY_START, None)
+            if self.count_resume:
+                self.mon.register_callback(self.TOOL, self.mon.events.PY_RESUME, None)
             self.mon.free_tool_id(self.TOOL)
         else:
             sys.setprofile(None)
